@@ -59,11 +59,12 @@ type Form struct {
 	Why  string
 }
 
-func fTrue() *Form          { return &Form{Op: "true"} }
-func fFalse() *Form         { return &Form{Op: "false"} }
-func fNot(f *Form) *Form    { return &Form{Op: "not", Sub: []*Form{f}} }
+func fTrue() *Form           { return &Form{Op: "true"} }
+func fFalse() *Form          { return &Form{Op: "false"} }
+func fNot(f *Form) *Form     { return &Form{Op: "not", Sub: []*Form{f}} }
 func fAnd(fs ...*Form) *Form { return &Form{Op: "and", Sub: fs} }
 func fOr(fs ...*Form) *Form  { return &Form{Op: "or", Sub: fs} }
+
 // fOver marks a sub-formula that over-approximates the condition it stands
 // for: it may be used as is in positive positions only; under a negation it is
 // replaced by true.
